@@ -189,6 +189,103 @@ theorem lowBias_spec (thr : K) (tapers : List (List K)) (eig : List K) :
 
 end lowbias
 
+/-! ### sign flips do not touch orthonormality or eigen-residuals -/
+section flipinv
+variable {K : Type} [Field K] [LinearOrder K] [IsStrictOrderedRing K]
+
+/-- a fixed row is `σ·row` with `σ = ±1`, as index functions -/
+theorem fixRow_sign (N i : ℕ) (r : List K) :
+    ∃ σ : K, (σ = 1 ∨ σ = -1) ∧ ∀ m, fnL (fixRow N i r) m = σ * fnL r m := by
+  simp only [fixRow, fixEven, fixOdd]
+  split_ifs
+  · exact ⟨-1, .inr rfl, fun m => by rw [fnL_negRow]; ring⟩
+  · exact ⟨1, .inl rfl, fun m => by ring⟩
+  · exact ⟨-1, .inr rfl, fun m => by rw [fnL_negRow]; ring⟩
+  · exact ⟨1, .inl rfl, fun m => by ring⟩
+
+/-- **Gram matrix**: every entry of the Gram matrix of the sign-fixed rows is `±` the entry of the
+original rows, and the diagonal is unchanged — orthonormal rows stay orthonormal -/
+theorem fixSigns_gram (N M i j : ℕ) (r1 r2 : List K) :
+    (∃ σ : K, (σ = 1 ∨ σ = -1) ∧
+      dot M (fnL (fixRow N i r1)) (fnL (fixRow N j r2)) = σ * dot M (fnL r1) (fnL r2)) ∧
+    dot M (fnL (fixRow N i r1)) (fnL (fixRow N i r1)) = dot M (fnL r1) (fnL r1) := by
+  obtain ⟨σ, hσ, h1⟩ := fixRow_sign N i r1
+  obtain ⟨τ, hτ, h2⟩ := fixRow_sign N j r2
+  refine ⟨⟨σ * τ, ?_, ?_⟩, ?_⟩
+  · rcases hσ with rfl | rfl <;> rcases hτ with rfl | rfl <;> simp
+  · simp only [dot_eq, h1, h2, Finset.mul_sum]
+    exact Finset.sum_congr rfl fun n _ => by ring
+  · simp only [dot_eq, h1]
+    have : σ * σ = 1 := by rcases hσ with rfl | rfl <;> simp
+    refine Finset.sum_congr rfl fun n _ => ?_
+    calc σ * fnL r1 n * (σ * fnL r1 n) = (σ * σ) * (fnL r1 n * fnL r1 n) := by ring
+      _ = fnL r1 n * fnL r1 n := by rw [this, one_mul]
+
+/-- **eigen-residual**: the residual vector `S·v − λ·v` of a sign-fixed row is `σ` times the
+original residual with one global `σ = ±1`: zero residuals stay zero, magnitudes are unchanged -/
+theorem fixSigns_residual (N M i : ℕ) (s : ℕ → K) (lam : K) (r : List K) :
+    ∃ σ : K, (σ = 1 ∨ σ = -1) ∧
+      ∀ m, kernelResidual M s lam (fnL (fixRow N i r)) m = σ * kernelResidual M s lam (fnL r) m := by
+  obtain ⟨σ, hσ, h⟩ := fixRow_sign N i r
+  refine ⟨σ, hσ, fun m => ?_⟩
+  simp only [kernelResidual, h]
+  rw [mul_sub, Finset.mul_sum]
+  congr 1
+  · exact Finset.sum_congr rfl fun n _ => by ring
+  · ring
+
+/-- **the concentration of a unit vector lies in [0, 1]** whenever the kernel's quadratic form is
+between 0 and the identity's (`0 ≤ Sinc_W ≤ I` — HYPOTHESIS here; for the sinc kernel it is the
+statement that a spectrum's energy in [−W, W] is between 0 and its total energy; not proved) -/
+theorem concentration_unit_interval (N : ℕ) (v r s : ℕ → K) (h0 : r 0 = s 0)
+    (hk : ∀ k, 1 ≤ k → r k = 2 * s k)
+    (hpsd : 0 ≤ ∑ m ∈ Finset.range N, ∑ n ∈ Finset.range N, v m * v n * s (m - n + (n - m)))
+    (hle : ∑ m ∈ Finset.range N, ∑ n ∈ Finset.range N, v m * v n * s (m - n + (n - m))
+            ≤ ∑ m ∈ Finset.range N, v m * v m)
+    (hunit : ∑ m ∈ Finset.range N, v m * v m = 1) :
+    0 ≤ quadAutocorr N v r ∧ quadAutocorr N v r ≤ 1 := by
+  rw [concentration_is_rayleigh N v r s h0 hk]
+  exact ⟨hpsd, hunit ▸ hle⟩
+
+end flipinv
+
+/-! ### one step of inverse iteration -/
+section invit
+variable {K : Type} [Field K] [Inhabited K]
+
+/-- **inverse iteration, one step**: let `y = tridisolve(d − μ, e, x)` (non-zero pivots).  For every
+eigenpair `(λ, u)` of the symmetric tridiagonal operator, the coefficient of `y` along `u` is the
+coefficient of `x` divided by `λ − μ`:  `(λ − μ)·⟨y, u⟩ = ⟨x, u⟩`.  With an orthonormal eigenbasis this
+is the eigen-expansion `y = Σ_i c_i/(λ_i − μ)·u_i`; convergence of `tridi_inverse_iteration` then
+follows from a spectral-gap certificate (|λ_k − μ| ≪ |λ_i − μ|, i ≠ k), checked per run. -/
+theorem inverse_iteration_step (d e x : Array K) (mu lam : K) (u : ℕ → K)
+    (hN : 1 ≤ x.size) (hd : x.size ≤ d.size) (he : x.size ≤ e.size + 1)
+    (hp : ∀ k, k < x.size → get (pivots (d.map (· - mu)) e x) k ≠ 0)
+    (heig : ∀ m, m < x.size → triOp (get d) (get e) x.size u m = lam * u m) :
+    (lam - mu) * ∑ m ∈ Finset.range x.size, get (tridisolve (d.map (· - mu)) e x) m * u m
+      = ∑ m ∈ Finset.range x.size, get x m * u m := by
+  have hd' : x.size ≤ (d.map (· - mu)).size := by simpa using hd
+  obtain ⟨_, hrow⟩ := tridisolve_solves (d.map (· - mu)) e x hN hd' he hp
+  set y := tridisolve (d.map (· - mu)) e x with hy
+  -- on the first N coordinates the shifted diagonal is `d − μ`
+  have hget : ∀ m, m < x.size → get (d.map (· - mu)) m = get d m - mu := by
+    intro m hm
+    have : m < d.size := by omega
+    simp [Tridi.get, Array.getD_eq_getD_getElem?, this]
+  -- the operator only reads the diagonal at `m < N`
+  have hop : ∀ m, m < x.size →
+      triOp (get (d.map (· - mu))) (get e) x.size (get y) m
+        = triOp (get d) (get e) x.size (get y) m - mu * get y m := by
+    intro m hm
+    unfold triOp; rw [hget m hm]; ring
+  refine invit_coeff x.size (triOp (get d) (get e) x.size) mu lam (get x) (get y) u ?_
+    (triOp_symm _ _ _ _ _) heig
+  intro m hm
+  rw [← hop m hm, ← mulRow_eq_triOp _ _ _ _ _ hm]
+  exact hrow m hm
+
+end invit
+
 /-- non-vacuity: signs (rows with negative sums are flipped), selection, Rayleigh on a 3-vector -/
 example : fixSigns 4 ([[-1, -2, -2, -1], [-1, -3, 3, 1], [1, 2, 2, 1]] : List (List Rat))
     = [[1, 2, 2, 1], [1, 3, -3, -1], [1, 2, 2, 1]] := by decide +kernel
